@@ -82,7 +82,15 @@ def _case(draw):
         for _ in range(draw(st.integers(1, 4))):
             fn = draw(st.sampled_from(FONT_FUNCS))
             ops.append({"fn": fn, "opts": draw(_opts(fn, names, bool(spec.get("layers")), spec))})
-        return {"kind": "font", "spec": spec, "module": module, "ops": ops}
+        case = {"kind": "font", "spec": spec, "module": module, "ops": ops}
+        if F.chance(draw, 1, 4):
+            # a plain list of 2-3 masters, each with its own public.skipExportGlyphs list (compileInterpolatableTTFs unions them)
+            nm = draw(st.integers(2, 3))
+            case["master_skip_lists"] = [draw(st.lists(st.sampled_from(names), max_size=2, unique=True)) for _ in range(nm)]
+            case["ops"] = [{"fn": "compileInterpolatableTTFs", "opts": draw(_opts("compileInterpolatableTTFs", names, False, spec))} for _ in range(draw(st.integers(1, 2)))]
+            for o in case["ops"]:
+                o["opts"].pop("skipExportGlyphs", None)
+        return case
     fam = draw(F.family(allow_rules=True))
     names = [g["name"] for g in fam["base"]["glyphs"] if g["name"] != ".notdef"]
     if F.chance(draw, 1, 4):
@@ -176,7 +184,17 @@ def run_case(case, ctx):
     if known_class(case) and not case.get("no_exclusions"):
         raise Discard("input class of known finding %s" % known_class(case))
     module = S.ufo_module(case["module"])
-    if case["kind"] == "font":
+    if case["kind"] == "font" and case.get("master_skip_lists"):
+        fonts, ds = [], None
+        for k, lst in enumerate(case["master_skip_lists"]):
+            sp = F.perturb(case["spec"], k, 0.3)
+            sp["lib"] = dict(sp.get("lib", {}))
+            sp["lib"].pop("public.skipExportGlyphs", None)
+            if lst:
+                sp["lib"]["public.skipExportGlyphs"] = list(lst)
+            fonts.append(S.build(sp, module))
+        ctx.label("list-of-masters-with-skip-lists")
+    elif case["kind"] == "font":
         spec = case["spec"]
         font = S.build(spec, module)
         fonts, ds = [font], None
